@@ -423,15 +423,20 @@ class set:
             self.config = config
             self._record = []
 
-            if arg is not None:
-                for key, value in arg.items():
-                    key = check_deprecations(key)
-                    self._assign(key.split("."), value, config)
-            if kwargs:
-                for key, value in kwargs.items():
-                    key = key.replace("__", ".")
-                    key = check_deprecations(key)
-                    self._assign(key.split("."), value, config)
+            try:
+                if arg is not None:
+                    for key, value in arg.items():
+                        key = check_deprecations(key)
+                        self._assign(key.split("."), value, config)
+                if kwargs:
+                    for key, value in kwargs.items():
+                        key = key.replace("__", ".")
+                        key = check_deprecations(key)
+                        self._assign(key.split("."), value, config)
+            except BaseException:
+                # Leave the configuration unchanged if one of the assignments fails
+                self.__exit__(None, None, None)
+                raise
 
     def __enter__(self):
         return self.config
@@ -479,18 +484,21 @@ class set:
 
         path = path + (key,)
 
+        # Record an operation only once it has succeeded, so that a failing
+        # assignment can be rolled back
         if len(keys) == 1:
-            if record:
-                if key in d:
-                    self._record.append(("replace", path, d[key]))
-                else:
-                    self._record.append(("insert", path, None))
+            if key in d:
+                op = ("replace", path, d[key])
+            else:
+                op = ("insert", path, None)
             d[key] = value
+            if record:
+                self._record.append(op)
         else:
             if key not in d:
+                d[key] = {}
                 if record:
                     self._record.append(("insert", path, None))
-                d[key] = {}
                 # No need to record subsequent operations after an insert
                 record = False
             self._assign(keys[1:], value, d[key], path, record=record)
